@@ -90,26 +90,8 @@ Theorem C11_panic_collect_object_refuted : exists cands : list (list Z),
 Proof. exists [[1; 2]; []]%Z. vm_compute. reflexivity. Qed.
 Print Assumptions C11_panic_collect_object_refuted.
 
-(* ---- sort comparator -------------------------------------------------- *)
-
-Theorem C11_sort_compare_guard_exact : forall (float_parses : str -> bool) (lt rt : stag) (lv rv : str),
-  (exists s, sort_compare_numeric float_parses lt rt lv rv = Panic s) <-> ~ sort_guard float_parses lt rt lv rv.
-Proof. exact sort_compare_panic_iff. Qed.
-Print Assumptions C11_sort_compare_guard_exact.
-
-(* [!!int abc, 1] | sort : panic(err) at operator_sort.go:162 *)
-Theorem C11_panic_sort_int_refuted : exists lv rv : str,
-  sort_compare_numeric (fun _ => true) TInt TInt lv rv = Panic SortParseInt.
-Proof. exists (str_of_string "abc"%string), [49]. vm_compute. reflexivity. Qed.
-Print Assumptions C11_panic_sort_int_refuted.
-
-(* [0x10, 1.5] | sort : any text strconv.ParseFloat rejects (0x10 is one:
-   checked on the implementation by the check) reaches operator_sort.go:172 *)
-Theorem C11_panic_sort_float_refuted : forall (float_parses : str -> bool) (v : str),
-  float_parses v = false ->
-  sort_compare_numeric float_parses TInt TFloat v v = Panic SortParseFloat.
-Proof. exact sort_float_site_reachable. Qed.
-Print Assumptions C11_panic_sort_float_refuted.
+(* (the sort comparator's panic(err) calls were removed from /repo by a fix
+   commit; its panic-freedom is now a theorem of property C15) *)
 
 (* ---- repeatString ----------------------------------------------------- *)
 
